@@ -195,7 +195,7 @@ def run_strip(spec, rec: Recorder):
         for op in ("unprotect", "protect"):
             for api in ("sync", "async"):
                 for form in ("seed", "public"):
-                    for variant in ("evil-envelope", "same-stub", "with-pad", "level-1", "level-2", "level-4", "level-5", "type-0"):
+                    for variant in ("evil-envelope", "same-stub", "with-pad", "level-1", "level-2", "level-4", "level-5", "type-0", "prepend-unsealed-fragment", "prepend-unsealed-fragment-no-hresult", "append-unsealed-fragment", "stripped-bind-ack"):
 
                         def tamper(conn, out, info, form=form, variant=variant):
                             req = [e for e in conn.events if e["event"] == "request"][-1]["getkey"]
@@ -203,6 +203,15 @@ def run_strip(spec, rec: Recorder):
                             stub = w.evil_stub(gk, form) if variant != "same-stub" else info["stub"]
                             if variant == "with-pad":
                                 stub += b"\x00" * (-len(stub) % 16)
+                            if variant.startswith(("prepend-", "append-")):
+                                # the authentic reply is left untouched; one more, unauthenticated, Response PDU travels with it
+                                # (a first / last fragment): nothing unauthenticated may end up in the stub
+                                evil = stub[:-4] if variant.endswith("no-hresult") else stub
+                                first = variant.startswith("prepend-")
+                                frag = rrpc.encode(dict(ptype=rrpc.RESPONSE, flags=rrpc.PFC_FIRST if first else rrpc.PFC_LAST, call_id=info["request"]["call_id"], auth=None, alloc_hint=len(evil), ctx_id=info["request"]["ctx_id"], cancel_count=0, stub=evil))
+                                return frag + out if first else out + frag
+                            if variant == "stripped-bind-ack":
+                                pass  # handled by the bind tamper below; the reply itself is the cleartext evil stub
                             if variant.startswith(("level-", "type-")):
                                 # keep a security trailer (so 'no trailer' checks pass) but announce a weaker level /
                                 # no provider, and put the attacker's cleartext stub where the ciphertext was
@@ -222,10 +231,28 @@ def run_strip(spec, rec: Recorder):
                                 return bytes(hdr) + body + bytes(trailer) + out[off + 8 :]
                             return rrpc.encode(dict(ptype=rrpc.RESPONSE, flags=FL, call_id=info["request"]["call_id"], auth=None, alloc_hint=len(stub), ctx_id=info["request"]["ctx_id"], cancel_count=0, stub=stub))
 
-                        out = w.call(op, api, tamper)
+                        if variant == "stripped-bind-ack":
+                            # two coordinated steps: the bind_ack loses its verifier (no server token), and whatever request
+                            # follows is answered in clear with the attacker's envelope
+
+                            def strip_ack(conn, ack, info):
+                                m = rrpc.decode(ack)
+                                m["auth"] = None
+                                return rrpc.encode(m)
+
+                            w.cfg.tamper_bind = strip_ack
+                        try:
+                            out = w.call(op, api, tamper)
+                        finally:
+                            w.cfg.tamper_bind = None
+                        ev = [e for c in w.core.transcripts[-1:] for e in c.events if e["event"] == "request"]
+                        if ev and ev[-1].get("unsealed_on_auth_connection") and ev[-1].get("getkey") is not None:
+                            rec.violation("request-sent-unsealed", f"{op}/{api}: after {variant} the client sent the GetKey request in clear on an authenticated connection", {"class": "strip", "op": op, "api": api, "variant": variant, "security": w.sec})
                         wit = {"class": "strip", "op": op, "api": api, "form": form, "variant": variant, "security": w.sec}
                         rec.count("strip_cases")
-                        w.judge(op, out, wit, "strip")
+                        # an extra unauthenticated PDU *after* the authentic reply is never read: succeeding with the authentic
+                        # result is correct there; in every other variant the authentic reply never reaches the client intact
+                        w.judge(op, out, wit, "trailing unauthenticated PDU" if variant.startswith("append-") else "strip")
                         rec.case(("strip", op, api, form, variant, w.sec), sample=wit if (op, api, form, variant) == ("protect", "sync", "seed", "evil-envelope") else None)
     finally:
         w.close()
